@@ -139,15 +139,19 @@ class State:
     @classmethod
     async def get_service_params(cls):
         """Get parameters for all services."""
-        cls.service2args = {}
+        #
+        # entity-method calls of other tasks keep using the previous table until the new one is complete
+        #
         all_services = await async_get_all_descriptions(cls.hass)
+        service2args = {}
         for domain in all_services:
-            cls.service2args[domain] = {}
+            service2args[domain] = {}
             for service, desc in all_services[domain].items():
                 if "entity_id" not in desc["fields"] and "target" not in desc:
                     continue
-                cls.service2args[domain][service] = set(desc["fields"].keys())
-                cls.service2args[domain][service].discard("entity_id")
+                service2args[domain][service] = set(desc["fields"].keys())
+                service2args[domain][service].discard("entity_id")
+        cls.service2args = service2args
 
     @classmethod
     async def notify_add(cls, var_names: set[str], queue: asyncio.Queue) -> bool:
